@@ -71,7 +71,7 @@ struct Common {
         uint64_t sum = 0;
         for (auto& s : cs.sec) if (s.first != "sched" && s.first != "actor") for (auto& r : s.second) for (size_t i = 1; i < r.size(); i++) if (r[i] > 0 && r[i] < 100000000) sum += (uint64_t)r[i];
         for (auto& r : cs.S("sched")) if (r.size() >= 3 && r[1] == 1) sum += (uint64_t)r[2];
-        L.ctl.horizon = T0 + sum + 2000000 + horizon_extra;
+        L.ctl.horizon = T0 + sum + 300000 + horizon_extra;
     }
     void common_or_custom(int id, const std::vector<long>& r, const std::function<void(int, const std::vector<long>&)>& run_op) {
         switch (r[0]) {
